@@ -468,6 +468,37 @@ def twins_of(base, op_counts, rng, max_twins=12):
     return out
 
 
+def tie_scenario(rng, sid):
+    """Continuous mode under a SLOW consumer: the stream is held back (`hold`) while several things happen, so that
+    when it is polled again a wait's timers, control requests and operation completions are ready at the same time
+    (the ties of the machine's select! / join, which one stimulus per poll never produces)."""
+    wfr = rng.random() < 0.4
+    sc = ping_scenario(rng, sid) if wfr else start_scenario(rng, sid, rounds=0, ctl_p=0.0)
+    sc["stim"] = [] if not wfr else sc["stim"][:1]
+
+    def ctl():
+        return {"s": "ctl", "h": rng.choice([0, 1]), "src": rng.choice(["ondemand", "scheduledtask"])}
+    first = 2 if wfr else 1
+    for n in range(first, first + 4):
+        kind = rng.choice(["timers+ctl", "ctl+timers", "two-ctl", "timers-together", "ctl+partial", "plain"] +
+                          (["rb+ping", "rb+ctl"] if wfr else []))
+        fa, fb = {"s": "fire", "sel": "for"}, {"s": "fire", "sel": "until"}
+        if rng.random() < 0.5:
+            fa, fb = fb, fa
+        rb = {"s": "fire", "sel": "for", "secs": 1800}
+        do = {"timers+ctl": [fa, fb, ctl()], "ctl+timers": [ctl(), fa, fb], "two-ctl": [ctl(), ctl()],
+              "timers-together": [fa, fb], "ctl+partial": [fb, ctl()], "plain": [fa, fb],
+              "rb+ping": [rb, fa, fb], "rb+ctl": [rb, ctl()]}[kind]
+        if kind != "plain":
+            do = [{"s": "hold", "n": len(do)}] + do
+        sc["stim"].append({"at": {"p": "idle", "n": n}, "do": do})
+    # a request that arrives together with the completion of an operation
+    for _ in range(rng.choice([0, 1, 2])):
+        p = rng.choice(["http.uc", "http.ev", "inst.plan", "pol.start", "inst.install", "pol.rbneeded", "http.ping", "pol.rballowed"])
+        sc["stim"].append({"at": {"p": p, "n": rng.randint(1, 3)}, "do": [{"s": "hold", "n": 1}, ctl()]})
+    return sc
+
+
 def batch(seed, n, kinds=("oneshot", "start")):
     rng = random.Random(seed)
     out = []
@@ -484,6 +515,8 @@ def batch(seed, n, kinds=("oneshot", "start")):
             out.append(ping_scenario(rng, sid))
         elif kind == "robust":
             out.append(robust_scenario(rng, sid, i))
+        elif kind == "tie":
+            out.append(tie_scenario(rng, sid))
         else:
             out.append(start_scenario(rng, sid))
     return out
